@@ -245,6 +245,9 @@ def generate(tier, seed):
         cases.append({"kind": "licenses", "k": k})
     for k in range(8 if tier == "quick" else 100):
         cases.append({"kind": "templates", "k": k})
+    for n in (2, 3, 5, 17, 256, 257) if tier == "quick" else (2, 3, 4, 5, 8, 17, 64, 255, 256, 257, 512, 513):
+        for how in ("named", "recursive"):
+            cases.append({"kind": "batch", "n": n, "how": how})
     for layout in range(4):
         cases.append({"kind": "conflict", "layout": layout})
     for k in range(60 if tier == "quick" else 6000):
@@ -350,6 +353,22 @@ def run_case(case, ctx):
             run_templates(case, ctx, res, root)
         elif kind == "values":
             run_values(case, ctx, res, root)
+        elif kind == "batch":
+            # many unreadable files in one invocation: the status stays the documented one however many fail
+            d = root / "batch"
+            d.mkdir()
+            body = b"".join(b"value_%d = %d\n" % (i, i) for i in range(12))
+            for i in range(case["n"]):
+                (d / f"latin{i}.py").write_bytes(b"# caf\xe9 cr\xe8me\n" + body)
+            (d / "fine.py").write_text("print(1)\n")
+            tail = ["-r", str(d)] if case["how"] == "recursive" else [str(p) for p in sorted(d.iterdir())]
+            r = run_cli(["--no-multiprocessing", "--root", str(root), "annotate", "-c", "J", "-l", "MIT"] + tail, cwd=str(root))
+            fault = f"batch of {case['n']} undecodable files"
+            if judge(res, r, "grey", fault, "annotate", allowed=(1,)):
+                res.sigs.add(short_hash("batch", case["n"], case["how"]))
+            r = run_cli(["--no-multiprocessing", "--root", str(root), "lint-file"] + [str(p) for p in sorted(d.iterdir())], cwd=str(root))
+            judge(res, r, "grey", fault, "lint-file", allowed=(0, 1))
+            res.cell("batch")
         else:
             # the two formats exclude each other wherever in the project the REUSE.toml sits
             where = ["REUSE.toml", "sub/REUSE.toml", "sub/deep/er/REUSE.toml", "b dir/REUSE.toml"][case.get("layout", 0)]
